@@ -82,9 +82,58 @@ def jump_features(body):
     return f
 
 
+def _blocks(stmts, fors, labels, fails, resumes):
+    for s in stmts:
+        k = s["k"]
+        if s.get("fails"):
+            fails.append(list(fors))
+        if k == "label":
+            labels[s["l"]] = list(fors)
+        elif k == "resume" and s.get("mode") == "label":
+            resumes.append(s["l"])
+        elif k == "if":
+            for a in s["arms"]:
+                _blocks(a["body"], fors, labels, fails, resumes)
+            _blocks(s["els"], fors, labels, fails, resumes)
+        elif k == "select":
+            for c in s["cases"]:
+                _blocks(c["body"], fors, labels, fails, resumes)
+            _blocks(s["els"], fors, labels, fails, resumes)
+        elif k == "for":
+            _blocks(s["body"], fors + [s["id"]], labels, fails, resumes)
+        elif k in ("while", "do"):
+            _blocks(s["body"], fors, labels, fails, resumes)
+
+
+def resume_label_features(p):
+    """resume-label-leaves-for-into-enclosing-for: a statement marked as the failing one stands in a FOR body (of the module or
+    of a procedure) that does not contain the label a RESUME label names, and that label stands inside a FOR body itself (the
+    shape of the recorded register-frame leak: the left FOR bodies stay on the machine's stack, the enclosing FOR reads them)"""
+    labels, fails, resumes = {}, [], []
+    _blocks(p["main"], [], labels, fails, resumes)
+    for sp in p.get("subs", []):
+        sub_fails = []
+        _blocks(sp["body"], ["proc"], {}, sub_fails, [])
+        fails += sub_fails
+    f = set()
+    for l in resumes:
+        if l not in labels or not labels[l]:
+            continue
+        ls = labels[l]
+        for fs in fails:
+            inner = [x for x in fs if x != "proc"]
+            common = 0
+            while common < len(inner) and common < len(ls) and inner[common] == ls[common]:
+                common += 1
+            if len(inner) > common:
+                f.add("resume-label-leaves-for-into-enclosing-for")
+    return f
+
+
 def of_prog(p):
     f = set()
     f |= jump_features(p["main"])
+    f |= resume_label_features(p)
     for sp in p.get("subs", []):
         f |= jump_features(sp["body"])
     for s in all_stmts(p):
